@@ -767,11 +767,14 @@ int SimulateMsp430::two_operand_exe(uint16_t opcode)
       src = get_data(src_reg, As, bw, ea);
       update_reg(src_reg, As, bw);
       dst = get_data(dst_reg, Ad, bw, ea);
-      src = ((~((uint16_t)src)) & 0xffff) + 1;
       if (bw == BW_BYTE)
       {
         dst = dst & 0xff;
-        src = src & 0xff;
+        src = ((~src) & 0xff) + 1;
+      }
+        else
+      {
+        src = ((~((uint16_t)src)) & 0xffff) + 1;
       }
       result = dst + src;
       update_v(dst, src, result, bw);
@@ -784,11 +787,14 @@ int SimulateMsp430::two_operand_exe(uint16_t opcode)
       src = get_data(src_reg, As, bw, ea);
       update_reg(src_reg, As, bw);
       dst = get_data(dst_reg, Ad, bw, ea);
-      src = ((~((uint16_t)src)) & 0xffff) + 1;
       if (bw == BW_BYTE)
       {
         dst = dst & 0xff;
-        src = src & 0xff;
+        src = ((~src) & 0xff) + 1;
+      }
+        else
+      {
+        src = ((~((uint16_t)src)) & 0xffff) + 1;
       }
       result = dst + src;
       update_v(dst, src, result, bw);
